@@ -711,6 +711,9 @@ def t_narrow(interp, t, dim=None, start=None, length=None):
 def t_argmin(interp, t):
     r = mk("argmin", [t], [], U("int64", DtypeS))
     r.intval = U("argmin_i", IntS, t.term)
+    if t.rank == 1:
+        n = lift(t.shape_l[0])
+        interp.cx.assume(z3.Implies(n >= 1, z3.And(0 <= r.intval, r.intval < n)), tag="argmin returns a valid index [T]")
     return r
 
 
